@@ -45,6 +45,11 @@ OUTS = ["overall_ci", "by_group_ci", "group_min_ci", "group_max_ci", "difference
         "difference_ci_to_overall", "ratio_ci_to_overall"]
 POINTS = ["overall", "by_group", "group_min", "group_max", "difference", "ratio", "difference_to_overall",
           "ratio_to_overall"]
+def _grp(nm):
+    """observable used in signatures: overall_ci, by_group_ci, or aggregate_ci (min / max / difference / ratio)"""
+    return nm if nm in ("overall_ci", "by_group_ci") else "aggregate_ci"
+
+
 QPOOL = [0.025, 0.05, 0.1, 0.25, 0.5, 0.75, 0.9, 0.95, 0.975, 0.03125, 0.125, 0.375, 0.625, 0.875, 0.96875,
          0.2, 0.3, 0.7, 0.8, 0.01, 0.99]
 LETTERS = "abcd"
@@ -406,7 +411,7 @@ def compare(case, out, model):
         e = res[nm]
         pt = res[pnm]
         if not e["is_list"] or len(e["entries"]) != len(qs):
-            P(f"{nm}/shape/entries", f"{nm} has {len(e['entries'])} entries for {len(qs)} quantiles",
+            P(f"{_grp(nm)}/shape/entries", f"{nm} has {len(e['entries'])} entries for {len(qs)} quantiles",
               "one entry per requested quantile")
             continue
         for t, x in enumerate(e["entries"]):
@@ -414,19 +419,19 @@ def compare(case, out, model):
                 if x["type"] == pt["type"] and sorted(x["columns"]) == sorted(pt["columns"]) and \
                         x["index_names"] == pt["index_names"]:
                     continue            # column order is not part of the property
-                P(f"{nm}/shape/type-columns", f"{nm}[{t}] is {x['type']} columns {x['columns']} index names "
+                P(f"{_grp(nm)}/shape/type-columns", f"{nm}[{t}] is {x['type']} columns {x['columns']} index names "
                   f"{x['index_names']}; the point estimate is {pt['type']} {pt['columns']} {pt['index_names']}",
                   "same type, columns and index names as the point estimate")
                 break
             if x["values"] is None:
-                P(f"{nm}/shape/type-columns", f"{nm}[{t}] cannot be read as numbers per metric",
+                P(f"{_grp(nm)}/shape/type-columns", f"{nm}[{t}] cannot be read as numbers per metric",
                   "same type and columns as the point estimate")
                 break
             if x["keys"] is not None:
                 pk = [tuple(k) for k in pt["keys"]]
                 xk = [tuple(k) for k in x["keys"]]
                 if any(k not in pk for k in xk) or len(set(xk)) != len(xk):
-                    P(f"{nm}/shape/index", f"{nm}[{t}] index {xk} is not part of the point estimate's {pk}",
+                    P(f"{_grp(nm)}/shape/index", f"{nm}[{t}] index {xk} is not part of the point estimate's {pk}",
                       "index = the point estimate's index restricted to groups seen in a resample")
                     break
                 if nm == "by_group_ci":
@@ -435,7 +440,7 @@ def compare(case, out, model):
                         for i in rsm:
                             seen.add(tuple(case["cols"][j][i] for j in range(case["ncf"] + case["nsf"])))
                     if not seen <= set(xk):
-                        P(f"{nm}/shape/index", f"{nm}[{t}] lacks groups {sorted(seen - set(xk))} that occur in a "
+                        P(f"{_grp(nm)}/shape/index", f"{nm}[{t}] lacks groups {sorted(seen - set(xk))} that occur in a "
                           f"resample", "every group that occurs in at least one resample is in the index")
                         break
     if v:
@@ -464,7 +469,7 @@ def compare(case, out, model):
             if bad:
                 break
         if bad:
-            P(f"{nm}/order/not-monotone", f"{nm}: {bad}", "entries are element-wise non-decreasing in the quantile")
+            P(f"{_grp(nm)}/order/not-monotone", f"{nm}: {bad}", "entries are element-wise non-decreasing in the quantile")
     # ---- count is n at every quantile; constant metrics -------------------------------------------
     nall = case["ncf"] + case["nsf"]
     seen_full = {tuple(case["cols"][j][i] for j in range(nall)) for rsm in rs for i in rsm}
@@ -499,7 +504,7 @@ def compare(case, out, model):
                         must = [tuple(k) in seen_cf for k in x["keys"]]
                     if any(not (math.isnan(cl) or _close(cl, ex)) for cl in cells) or \
                             any(mu and math.isnan(cl) for mu, cl in zip(must, cells)):
-                        P(f"{nm}/constant-metric/quantile-differs", f"{nm}[{t}] column {j} = {cells} for a metric "
+                        P(f"{_grp(nm)}/constant-metric/quantile-differs", f"{nm}[{t}] column {j} = {cells} for a metric "
                           f"that is {const} on every sample (expected {ex})",
                           "a metric that is constant over the rows has all quantiles equal to the point estimate")
                         break
@@ -534,7 +539,7 @@ def compare(case, out, model):
         me = model[nm]
         ie = res[nm]["entries"]
         if len(me) != len(ie):
-            v.append((f"{PID}/MetricFrame/{nm}/differs-from-model", f"{len(ie)} entries, model {len(me)}",
+            v.append((f"{PID}/MetricFrame/{_grp(nm)}/differs-from-model", f"{nm}: {len(ie)} entries, model {len(me)}",
                       f"{nm} = quantiles of the aligned per-resample results (model)", kindm))
             continue
         for t, (x, m) in enumerate(zip(ie, me)):
@@ -546,13 +551,19 @@ def compare(case, out, model):
             elif len(x["values"]) != len(m["values"]):
                 why = "row count differs"
             else:
+                # with an infinite per-resample cell numpy's _lerp jumps between NaN and +-inf at gamma = 1/2
+                    # (a + (b-a)*t below, b - (b-a)*(1-t) from 1/2 on): a float-rounding artefact of the virtual
+                    # index decides, so non-finite cells of such outputs are compared for shape only
+                lax = not model["no_inf"][nm]
                 for ri, (ra, rb) in enumerate(zip(x["values"], m["values"])):
-                    if len(ra) != len(rb) or any(not _close(a, b) for a, b in zip(ra, rb)):
+                    if len(ra) != len(rb) or any(
+                            not _close(a, b) and not (lax and not (math.isfinite(float(a)) and math.isfinite(float(b))))
+                            for a, b in zip(ra, rb)):
                         why = f"row {ri} (key {x['keys'][ri] if x['keys'] else None}): {ra} model " \
                               f"{[float(b) for b in rb]}"
                         break
             if why:
-                v.append((f"{PID}/MetricFrame/{nm}/differs-from-model", f"{nm}[{t}] (q={qs[t]}): {why}",
+                v.append((f"{PID}/MetricFrame/{_grp(nm)}/differs-from-model", f"{nm}[{t}] (q={qs[t]}): {why}",
                           f"{nm} = quantiles of the aligned per-resample results (model)", kindm))
                 break
     # point estimate against the same create model (sanity of the per-resample model)
